@@ -26,6 +26,9 @@ pub fn c02(ctx: &mut Ctx) {
         // the same configuration built with a size query and a scratch write after every builder call
         roundtrip_case(l, "roundtrip-probed", p, Variant { reset: true, ..Variant::PROBED });
         roundtrip_case(l, "roundtrip-padding-set-last", p, Variant { pad_last: true, ..Variant::PROBED });
+        if l.cur_idx % 3 == 0 {
+            super::common::illegal_padding_set_late(l, p);
+        }
     });
     super::common::roundtrip_iterator_histories(ctx, gens::sr_rr_spaces(Tier::Quick, ctx.seed), 60, 3);
     ctx.require_hit("round-trip-equal");
@@ -40,7 +43,10 @@ pub fn c03(ctx: &mut Ctx) {
         // alternate the borrowed and the owned item APIs so both writers' inputs are covered
         let var = Variant::new(idx % 5 == 4, Wrap::None);
         roundtrip_case(l, "roundtrip", p, var);
-        roundtrip_case(l, "roundtrip-probed", p, Variant { probe: true, reset: true, cow: idx % 3 == 0, pad_last: idx % 2 == 1, owned: idx % 5 != 4 && idx % 3 != 0, wrap: Wrap::None })
+        roundtrip_case(l, "roundtrip-probed", p, Variant { probe: true, reset: true, cow: idx % 3 == 0, pad_last: idx % 2 == 1, owned: idx % 5 != 4 && idx % 3 != 0, wrap: Wrap::None });
+        if idx % 3 == 0 {
+            super::common::illegal_padding_set_late(l, p);
+        }
     });
     super::common::roundtrip_iterator_histories(ctx, gens::sdes_spaces(Tier::Quick, ctx.seed), 40, 3);
     ctx.require_hit("round-trip-equal");
@@ -55,7 +61,10 @@ pub fn c04(ctx: &mut Ctx) {
     run_cfg_spaces(ctx, spaces, |p, idx, l| {
         let var = Variant::new(idx % 7 == 3, Wrap::None);
         roundtrip_case(l, "roundtrip", p, var);
-        roundtrip_case(l, "roundtrip-probed", p, Variant { probe: true, reset: true, cow: idx % 3 == 0, pad_last: idx % 2 == 1, owned: idx % 7 != 3 && idx % 3 != 0, wrap: Wrap::None })
+        roundtrip_case(l, "roundtrip-probed", p, Variant { probe: true, reset: true, cow: idx % 3 == 0, pad_last: idx % 2 == 1, owned: idx % 7 != 3 && idx % 3 != 0, wrap: Wrap::None });
+        if idx % 3 == 0 {
+            super::common::illegal_padding_set_late(l, p);
+        }
     });
     super::common::roundtrip_iterator_histories(ctx, gens::bye_spaces(Tier::Quick, ctx.seed), 60, 3);
     ctx.require_hit("round-trip-equal");
@@ -82,7 +91,10 @@ pub fn c05(ctx: &mut Ctx) {
     run_cfg_spaces(ctx, spaces, |p, idx, l| {
         let var = Variant::new(idx % 2 == 1, Wrap::None);
         roundtrip_case(l, "roundtrip", p, var);
-        roundtrip_case(l, "roundtrip-probed", p, Variant { probe: true, reset: true, cow: idx % 3 == 0, pad_last: (idx / 2) % 2 == 1, owned: idx % 2 == 0 && idx % 3 != 0, wrap: Wrap::None })
+        roundtrip_case(l, "roundtrip-probed", p, Variant { probe: true, reset: true, cow: idx % 3 == 0, pad_last: (idx / 2) % 2 == 1, owned: idx % 2 == 0 && idx % 3 != 0, wrap: Wrap::None });
+        if idx % 3 == 0 {
+            super::common::illegal_padding_set_late(l, p);
+        }
     });
     super::common::roundtrip_iterator_histories(ctx, gens::fb_spaces(Tier::Quick, ctx.seed), 25, 3);
     ctx.require_hit("round-trip-equal");
